@@ -6,6 +6,7 @@ pub fn main(mode: &str, args: &[String]) -> i32 {
     match mode {
         "execd" => execd(args),
         "c11" => c11(args),
+        "tr" => test_runner(args),
         other => {
             eprintln!("vworker: unknown mode {other:?}");
             2
@@ -78,5 +79,84 @@ fn c11(args: &[String]) -> i32 {
         _ => bc.handle_layer(name, Recreate).map(|_| ()).map_err(|e| format!("{e:?}")),
     };
     println!("{}", serde_json::json!({"ok": res.is_ok(), "err": res.err(), "dropped": dropped}));
+    0
+}
+
+/// libcnb-test scenario interpreter: args[0] = scenario JSON. Panics propagate (exit 101), as in a real test.
+fn test_runner(args: &[String]) -> i32 {
+    use libcnb_test::{BuildConfig, BuildpackReference, ContainerConfig, PackResult, TestContext, TestRunner};
+    let v: Value = serde_json::from_str(&args[0]).expect("scenario json");
+
+    fn build_cfg(c: &Value) -> BuildConfig {
+        let mut cfg = BuildConfig::new(c["builder"].as_str().unwrap(), c["app_dir"].as_str().unwrap());
+        let bps: Vec<BuildpackReference> = c["buildpacks"].as_array().unwrap().iter().map(|b| BuildpackReference::Other(b.as_str().unwrap().to_string())).collect();
+        cfg.buildpacks(bps);
+        for kv in c["env"].as_array().unwrap() {
+            cfg.env(kv[0].as_str().unwrap(), kv[1].as_str().unwrap());
+        }
+        if c["expect_failure"] == true {
+            cfg.expected_pack_result(PackResult::Failure);
+        }
+        if c["preprocessor"] == true {
+            cfg.app_dir_preprocessor(|p| {
+                std::fs::write(p.join("preprocessed.txt"), b"added by the preprocessor").unwrap();
+                let _ = std::fs::remove_file(p.join("remove-me.txt"));
+            });
+        }
+        cfg
+    }
+    fn container_cfg(c: &Value) -> ContainerConfig {
+        let mut cfg = ContainerConfig::new();
+        if let Some(e) = c["entrypoint"].as_str() {
+            cfg.entrypoint(e);
+        }
+        if let Some(cmd) = c["command"].as_array() {
+            cfg.command(cmd.iter().map(|x| x.as_str().unwrap().to_string()).collect::<Vec<_>>());
+        }
+        for kv in c["env"].as_array().unwrap() {
+            cfg.env(kv[0].as_str().unwrap(), kv[1].as_str().unwrap());
+        }
+        for p in c["ports"].as_array().unwrap() {
+            cfg.expose_port(p.as_u64().unwrap() as u16);
+        }
+        for m in c["mounts"].as_array().unwrap() {
+            cfg.bind_mount(m[0].as_str().unwrap(), m[1].as_str().unwrap());
+        }
+        cfg
+    }
+    fn run_steps(ctx: TestContext, steps: &[Value]) {
+        let mut ctx = Some(ctx);
+        for s in steps {
+            let c = ctx.as_ref().expect("context consumed by rebuild");
+            if s == "panic" {
+                panic!("scripted panic in test closure");
+            } else if s == "download_sbom" {
+                c.download_sbom_files(|_files| ());
+            } else if let Some(cmd) = s.get("run_shell") {
+                let _ = c.run_shell_command(cmd.as_str().unwrap());
+            } else if let Some(sc) = s.get("start_container") {
+                c.start_container(container_cfg(&sc["cfg"]), |cc| {
+                    for i in sc["inner"].as_array().unwrap() {
+                        if i == "panic" {
+                            panic!("scripted panic in container closure");
+                        } else if i == "logs_now" {
+                            let _ = cc.logs_now();
+                        } else if i == "logs_wait" {
+                            let _ = cc.logs_wait();
+                        } else if let Some(p) = i.get("port") {
+                            let _ = cc.address_for_port(p.as_u64().unwrap() as u16);
+                        } else if let Some(cmd) = i.get("shell_exec") {
+                            let _ = cc.shell_exec(cmd.as_str().unwrap());
+                        }
+                    }
+                });
+            } else if let Some(rb) = s.get("rebuild") {
+                let c = ctx.take().unwrap();
+                c.rebuild(build_cfg(&rb["cfg"]), |inner| run_steps(inner, rb["steps"].as_array().unwrap()));
+            }
+        }
+    }
+    let b = &v["build"];
+    TestRunner::default().build(build_cfg(&b["cfg"]), |ctx| run_steps(ctx, b["steps"].as_array().unwrap()));
     0
 }
